@@ -35,6 +35,7 @@ from common import Model, exc_name, REPO
 logging.disable(logging.CRITICAL)
 
 LEAN_TARGETS = ["NfcVerif.Props.C09", "drv_c09"]
+PARTS = ["multi"]           # props/c09_multi.py: several threads on one socket, service threads under a deterministic scheduler
 
 THEOREMS = [
     "NfcVerif.C09.terminate_notifies_every_waiter",
@@ -49,6 +50,10 @@ THEOREMS = [
     "NfcVerif.C09.connect_returns_partial",
     "NfcVerif.C09.connect_returns_counterexample",
     "NfcVerif.C09.service_threads_exit",
+    "NfcVerif.C09.all_threads_return",
+    "NfcVerif.C09.notify_one_counterexample",
+    "NfcVerif.C09.schedule_after_terminate",
+    "NfcVerif.C09.service_threads_exit_any_point",
 ]
 
 HANG_TIMEOUT = 6.0        # hard limit for one thread to come back (a healthy one needs < 1 ms)
@@ -127,6 +132,19 @@ def blocked_kinds(llc):
     s = sock(RAW, 45); out.append(("raw.send", lambda s=s: s.send(nfc.llcp.pdu.UnnumberedInformation(9, 45, b"r")), s))
     s = sock(RAW, 46); out.append(("raw.poll(recv)", lambda s=s: s.poll("recv"), s))
     s = sock(DLC); out.append(("resolve", lambda s=s: s.resolve(b"urn:nfc:sn:what"), s))
+    # MORE THAN ONE waiter on the same condition variable (notify vs notify_all): further threads in the same call on
+    # the same socket; every resolve() of a controller waits on the one `resp` condition of its service discovery SAP
+    byname = {n: (f, s) for n, f, s in out}
+    for name in ("dlc.recv", "dlc.send(window-closed)", "dlc.accept", "dlc.poll(recv)", "dlc.poll(acks)", "ldl.recvfrom",
+                 "ldl.poll(recv)", "raw.recv"):
+        f, s = byname[name]
+        out.append((name + "#2", f, s))
+    f, s = byname["dlc.recv"]
+    out.append(("dlc.recv#3", f, s))
+    s2, s3 = sock(DLC), sock(LDL)
+    out.append(("resolve#2", lambda s=s2: s.resolve(b"urn:nfc:sn:other"), s2))
+    out.append(("resolve#3", lambda s=s3: s.resolve(b"urn:nfc:sn:third"), s3))
+    s = sock(DLC); out.append(("dlc.connect#2", lambda s=s: s.connect(b"urn:nfc:sn:peer2"), s))
     return out
 
 
@@ -137,7 +155,8 @@ def later_calls(llc, olds):
     UI = nfc.llcp.pdu.UnnumberedInformation
     out = []
     for name, fn, s in olds:
-        out.append(("old:" + name, fn))
+        if "#" not in name:                 # the further threads of the same call repeat nothing new afterwards
+            out.append(("old:" + name, fn))
     byname = {n: s for n, f, s in olds}
     d, l, r = byname["dlc.recv"], byname["ldl.recvfrom"], byname["raw.recv"]
     out += [("old:dlc.send", lambda: d.send(b"z")), ("old:dlc.connect", lambda: d.connect(17)),
@@ -208,7 +227,7 @@ class Scenario:
             llc = st["llc"]
             kinds = blocked_kinds(llc)
             if self.single is not None:
-                kinds = [k for k in kinds if k[0] == self.single]
+                kinds = [k for k in kinds if k[0].split("#")[0] == self.single]
             st["olds"] = kinds
             import nfc.llcp
             early = nfc.llcp.Socket(llc, nfc.llcp.LOGICAL_DATA_LINK)      # closed by the application while the link is up
@@ -273,8 +292,11 @@ class Scenario:
         # ---- connect() returned to its caller?
         res = link.result
         if not st["olds"] and self.start_at < 0:
-            from common import Infra
-            raise Infra("scenario did not start: connect() -> %r" % (res,))
+            # on-startup / on-connect (sockets prepared, servers created) did not complete on this nfcpy
+            ck.fail("scenario-setup-fails-%s" % (res[1] if res and res[0] == "exc" else "connect-returns"),
+                    "clf.connect(llcp=...) on the scripted MAC ended before the application threads could be started: %r" % (res,),
+                    replay)
+            return 0, hangs
         if res[0] == "exc" and res[1] == "SystemExit":
             cls = "ioerror" if self.cause.startswith("ioerror") else \
                   "secerror" if self.cause in ("key-agreement", "decryption", "encryption") else self.cause
@@ -292,8 +314,12 @@ class Scenario:
             r.thread.join(HANG_TIMEOUT if hangs < hang_budget else 0.05)
             if r.thread.is_alive():
                 hangs += 1
-                ck.fail("hang-blocked-" + r.name, "thread blocked in %s is still waiting on %s after the link ended by %s"
-                        % (r.name, T.TRACER.blocked_on(r.thread), self.cause), dict(replay, call=r.name))
+                twin = "#" in r.name or any(x.name.split("#")[0] == r.name and x is not r for x in st["runners"])
+                ck.fail("hang-blocked-" + r.name.split("#")[0], "thread blocked in %s is still waiting on %s after the link ended by %s%s"
+                        % (r.name, T.TRACER.blocked_on(r.thread), self.cause,
+                           " (%d threads were in this call on the same socket / controller)"
+                           % sum(1 for x in st["runners"] if x.name.split("#")[0] == r.name.split("#")[0]) if twin else ""),
+                        dict(replay, call=r.name))
             elif r.result[0] == "exc":
                 ck.fail("exc-blocked-%s-%s" % (r.name, r.result[1]), "thread blocked in %s got %s (%s) when the link ended by %s"
                         % (r.name, r.result[1], r.result[2], self.cause), dict(replay, call=r.name))
@@ -463,6 +489,9 @@ class DoubleWorld:
             llc, tco, sock = self.build(st)
         except T.Hang as h:
             return ["terminate-blocks"], "hang " + str(h.cv), ""
+        except Exception as e:  # noqa  - the real objects refuse the set-up (or terminate() raises)
+            self.world.end()
+            return ["setup-raises"], "exc " + exc_name(e), repr(e)[:120]
         fn = self.call_fn(st, sock, call)
         self.world.begin(llc, tco, script)
         try:
@@ -596,6 +625,11 @@ def tie_waits(ck, model):
         nwait += waits
         if ev == ["terminate-blocks"]:
             ck.fail("terminate-blocks", "llc.terminate() itself waits on %s (the link thread would hang)" % out, {"state": st})
+            continue
+        if ev == ["setup-raises"]:
+            ck.fail(("terminate-raises-" if st["pre"] else "socket-setup-raises-") + out[4:],
+                    "preparing a %s socket in state %s%s raised %s" % (st["k"], st["st"], " and calling llc.terminate()" if st["pre"] else "",
+                                                                      real.split("|")[-1]), {"state": st})
             continue
         terminated_at = None
         if st["pre"]:
@@ -766,8 +800,8 @@ def tie_service(ck, model):
                     ck.count("service loop left by " + exc_name(e))
                 finally:
                     world.end()
-                rep = model.ask("service k=dlc st=%s b=1 reg=1 alive=1 sd=1 rw=1 sb=1 rb=1 sm=128 at=%s"
-                                % ("LISTEN" if point == "accept" else "ESTABLISHED", point))
+                rep = model.ask("service srv=%s k=dlc st=%s b=1 reg=1 alive=1 sd=1 rw=1 sb=1 rb=1 sm=128 at=%s"
+                                % (srvname, "LISTEN" if point == "accept" else "ESTABLISHED", point))
                 n += 1
                 ck.case(("service", srvname, point), True, "L2 service")
                 if rep != real:
@@ -889,6 +923,32 @@ def tie_latebind(ck, model):
     ck.tie("bind() interleaved with the steps of terminate(): model vs real controller", cases=n, disagreements=dis, exhaustive=ck.thorough)
 
 
+def guarded(ck, phase, fn, *args):
+    """run one phase of the check; an exception that escapes from it is reported as a failing input (raised inside
+    nfcpy) or as a broken correspondence (raised by the harness on behaviour it did not foresee) - the other phases
+    still run"""
+    import traceback
+    from common import Infra
+    import subprocess
+    try:
+        return fn(*args)
+    except (Infra, subprocess.TimeoutExpired, KeyboardInterrupt, MemoryError):
+        raise
+    except Exception as e:  # noqa
+        tb = traceback.extract_tb(e.__traceback__)
+        srcdir = os.path.join(REPO, "src") + os.sep
+        frames = ["%s:%d %s" % (os.path.basename(f.filename), f.lineno, f.name) for f in tb[-8:]]
+        inner = tb[-1].filename if tb else ""
+        if inner.startswith(srcdir):
+            ck.fail("exception-in-nfcpy-during-%s-%s" % (phase, exc_name(e)),
+                    "%s raised inside nfcpy (%s) while the harness ran the phase '%s': %s" % (exc_name(e), frames[-1], phase, e),
+                    {"phase": phase, "exception": repr(e), "frames": frames})
+        else:
+            ck.fail("tie:%s-aborted" % phase, "the phase '%s' could not be completed: %s: %s" % (phase, type(e).__name__, e),
+                    {"phase": phase, "exception": repr(e), "frames": frames})
+        return 0
+
+
 def run(ck):
     ck.rule = ("L2 cases: (abstract socket/controller state, call, script of actions at the scheduling points); the action tree of every "
                "(state, call) is enumerated to depth %d; systematic over kind x state x bound/unbound x link-terminated-before x call "
@@ -909,16 +969,31 @@ def run(ck):
     ]
     ck.trusted += ["hand-written Lean model NfcVerif.Model.Term, tied by differential runs (sims/term_llc.py Condition double)",
                    "harness/props/c09.py, harness/sims/term_llc.py"]
+    t0 = time.time()
+    phases = []
+
+    def phase(name):
+        nonlocal t0
+        phases.append("%s %.1fs" % (name, time.time() - t0))
+        t0 = time.time()
     ck.lean("NfcVerif.Props.C09", THEOREMS)
     if ck.thorough:
         ck.leanchecker(["NfcVerif.Props.C09"])
     model = Model("drv_c09")
+    phase("L1 build+audit")
     import contextlib
     import io
-    tie_waits(ck, model)
+    from sims import term_llc as T
+    guarded(ck, "wait-structure", tie_waits, ck, model)
+    T.uninstall()
+    phase("L2 wait structure")
     with contextlib.redirect_stdout(io.StringIO()):      # the KeyboardInterrupt handlers of the run loops print a newline
-        tie_loops(ck, model)
-        tie_service(ck, model)
-        tie_latebind(ck, model)
-        n = oracle(ck)
+        guarded(ck, "run-loops", tie_loops, ck, model)
+        guarded(ck, "service-loops", tie_service, ck, model)
+        guarded(ck, "terminate-steps", tie_latebind, ck, model)
+        T.uninstall()
+        phase("L2 loops/service/latebind")
+        n = guarded(ck, "real-threads", oracle, ck)
+        phase("L3 real threads")
     ck.notes.append("L3: %d real-thread scenarios, hard time limit %.0f s per thread" % (n, HANG_TIMEOUT))
+    ck.notes.append("wall time per phase: " + ", ".join(phases))
